@@ -11,6 +11,19 @@ TRUST = ('TLC/SANY (and Apalache where named), the JSON bridge between TLC and t
          'guards the bridge. ')
 
 CHECKS = {
+    'C12': dict(
+        technique='TLA+ state machine of the overridable clock (spec/TimeOverride.tla: instants as <<day, second, microsecond>> triples with carry arithmetic; SetOverride / Clear / AdvanceDelta / AdvanceSeconds / UtcNow / UtcNowTs) model-checked with TLC and every edge of the bounded graph executed on timeutils and TimeFixture; comparison / normalisation cases (now x relative t x offset x form x threshold incl. exact boundary) enumerated by TLC with NormalizeRight and BoundaryStrict; recorded clock traces validated by Trace_TimeOverride',
+        category='model_checking',
+        text='UtcNowIsOverride, AdvanceExact, QueriesLeaveClock and Normalised are checked by TLC on all call sequences to depth 3 '
+             'over a lattice of instants chosen around every carry (microsecond, second, midnight, year end) and ten durations; '
+             'each of the 14k transitions is replayed on the real functions (directly and through TimeFixture) comparing result '
+             'and the override afterwards. 60k comparison cases - t given as naive, aware (nine offsets up to +-23:59) or ISO '
+             'text, thresholds zero, negative, fractional and exactly at the boundary - are decided by the TLA+ triple arithmetic '
+             'and compared with is_older_than / is_newer_than / is_soon / normalize_time / parse_isotime. Marshalling round trips, '
+             'the leap-second cap and named zones are checked on random instants; recorded clock traces are validated in TLC.',
+        design_ref='6/C12',
+        note=TRUST + 'Calendar arithmetic (ordinal <-> y/m/d, zone databases) is datetime/zoneinfo on both sides; utcnow_ts with '
+             'microseconds is compared to within 0.5 us; list-valued overrides are outside the statement.'),
     'C11': dict(
         technique='TLA+ recognisers over token descriptions (spec/Net.tla: IPv4, IPv6 with :: / embedded IPv4 / scope, CIDR, MAC, integer ranges) enumerated by TLC (62k cases) plus a character-level dotted-quad recogniser over every string up to length 7; every case rendered and put to the validators; the standard library ipaddress parser as a second oracle that must agree with the recogniser wherever it defines the answer; random strings for totality',
         category='model_checking',
